@@ -217,6 +217,14 @@ def run_instances(module, instances, total_budget_s, stop_on_violation=True, log
             inflight = still
             if stop and not inflight:
                 break
+            if time.time() - t0 > total_budget_s + 150 and inflight:
+                # hard stop: some worker is stuck in a pathological path far beyond the tier's budget
+                for name, gen, ar in inflight:
+                    st = states[name]
+                    st.status = "budget" if st.status == "exhausted" else st.status
+                    st.dropped += 1
+                inflight = []
+                break
             if not progressed:
                 time.sleep(0.02)
     finally:
